@@ -28,7 +28,7 @@ ASSUMPTIONS = [
 ]
 
 OPS = ["place", "place", "cancel", "cancel_part", "update", "replace", "replace", "task_race", "fill", "fill_part", "lapse", "snap", "snap", "process", "process",
-       "process_dup", "task", "task", "task_race", "task_race", "task_fail", "quiesce", "restart", "foreign"]
+       "process_dup", "task", "task", "task_race", "task_race", "task_fail", "task_outcome", "quiesce", "restart", "foreign"]
 
 
 @st.composite
@@ -55,6 +55,10 @@ def schedule(draw, tier="quick"):
             # the API call of a queued package fails in transit n times in a row (4 = every attempt: retries exhausted)
             op.update(k=draw(st.integers(0, 3)), n=draw(st.sampled_from([1, 2, 4, 4])),
                       transport=draw(st.sampled_from(["connection", "timeout", "http500", "garbage", "rpc-error"])))
+        elif k == "task_outcome":
+            # the call is answered, but the instruction reports say TIMEOUT (outcome unknown: the exchange may or may
+            # not have taken the instruction) or FAILURE
+            op.update(k=draw(st.integers(0, 3)), outcome=draw(st.sampled_from(["TIMEOUT_ACCEPTED", "TIMEOUT_ACCEPTED", "TIMEOUT", "FAILURE:BET_ACTION_ERROR"])))
         elif k == "process":
             op["n"] = draw(st.integers(1, 3))
         elif k == "foreign":
@@ -105,6 +109,7 @@ class Driver:
         self.nontrivial = False
         self.adopted_checked = False
         self.accepted_during_flight = []  # requests accepted on an order while an API call for it was in flight
+        self.timeout_accepted = set()  # ids of orders whose synchronous placement was answered TIMEOUT although the exchange took the bet
         self.start()
 
     def start(self, feed=True, defer=False):
@@ -246,6 +251,17 @@ class Driver:
 
                     lab.call_plan.append({"hook": hook})
                 lab.run_task(op.get("k", 0))
+            elif k == "task_outcome":
+                if not lab.pool.queue:
+                    return
+                pk = lab.pool.queue[op.get("k", 0) % len(lab.pool.queue)][1][0]
+                if pk.package_type.name == "PLACE" and op["outcome"] == "TIMEOUT_ACCEPTED" and not self.c["async"]:
+                    self.timeout_accepted.update(id(o) for o in pk._orders)
+                lab.call_plan = [{"outcomes": [op["outcome"]] * 3}]
+                lab.run_task(op.get("k", 0))
+                lab.call_plan = []
+                self.classes.add("instruction-report:" + op["outcome"].split(":")[0])
+                self.nontrivial = True
             elif k == "task_fail":
                 if not lab.pool.queue:
                     return
@@ -359,7 +375,14 @@ class Driver:
             if b.status != "EXECUTABLE" and not os_ and self.classes & {"restart"}:
                 continue  # completed before the restart: not in a fresh subscription's image
             if len(os_) != 1:
-                raise Violation("bet-not-represented-once", ("none" if not os_ else "several", b.ot),
+                facts = ("none" if not os_ else "several", b.ot)
+                if not os_ and any(x.bet_id is None and x.status.name == "PENDING" and id(x) in self.timeout_accepted and x.customer_order_ref == b.ref
+                                   for x in local):
+                    # the recorded defect: the placement was answered TIMEOUT (outcome unknown), the exchange had taken
+                    # the bet; the stream reports it under the order's reference but a bet id is only picked up from
+                    # the stream for asynchronous placements - the order stays PENDING without a bet id for ever
+                    facts += ("placement-answered-timeout-bet-id-never-learnt",)
+                raise Violation("bet-not-represented-once", facts,
                                 "bet %s (%s) has %d local orders" % (b.bet_id, b.view(), len(os_)), self.c)
             o = os_[0]
             if o.complete != (b.status == "EXECUTION_COMPLETE"):
